@@ -1131,8 +1131,8 @@ func (t *State) procTodoBlkForWalk(todoBlocks []*pb.InternalBlock) (err error) {
 				}
 			}
 
-			// 校验普通交易合法性
-			if !tx.Autogen && !tx.Coinbase {
+			// 校验普通交易合法性, 没有读写集的autogen交易不是合法的定时交易, 按普通交易校验(会被拒绝)
+			if !t.verifyAutogenTxValid(tx) && !tx.Coinbase {
 				if ok, err := t.ImmediateVerifyTx(tx, false); !ok {
 					return fmt.Errorf("immediate verify tx error.txid:%s,err:%v", showTxId, err)
 				}
